@@ -226,6 +226,8 @@ def verb_programs(built):
         ("lit-typed", lambda: a >> pdt.mutate(l1=pdt.lit(1, pdt.Float()), l2=pdt.lit(1, pdt.Float32()), l3=pdt.lit(1, pdt.Int8()), l4=pdt.lit(2, pdt.Float64()),
                                                 l5=pdt.lit(1.0, pdt.Float()), l6=pdt.lit(None, pdt.Int16()), l7=pdt.lit(1, pdt.Float()) + a.i8, l8=pdt.lit(3, pdt.UInt8()) * 2)),
         ("union-stale-left-ref", lambda: a >> pdt.select(a.k, a.i8, a.f32) >> pdt.union(b >> pdt.select(b.k, b.i8, b.f32)) >> pdt.mutate(y=a.i8 + 1, z=a.f32 * 2, w=C.i8 + 1)),
+        ("union-int-float-stale-ref", lambda: a >> pdt.select(a.k, a.i64) >> pdt.union(b >> pdt.mutate(i64=b.f32) >> pdt.select(b.k, C.i64))
+         >> pdt.mutate(y=a.i64 + 1, z=C.i64 + 1, c=pdt.when(a.k > 1).then(a.i64).otherwise(0))),
         ("slice-arrange", lambda: a >> pdt.arrange(a.k) >> pdt.slice_head(1)),
     ]
 
